@@ -85,7 +85,15 @@ def edge_programs(rng, n):
               'out int i = 0;\nparser { try { if i == 0 { "a"; } else { "b"; } } catch { } "z"; }\n',
               'out int i = 0;\nparser { loop { case { "(" -> { i = [i + 1]; } ")" -> { i = [i - 1]; } /[a-z]/ -> {} } if i < 0 { finish; } elif i == 0 { break; } } ";"; }\n',
               'out int i = 0;\nfinishcode F;\nparser { loop { "a"; i = [i + 1]; if i == 3 { break; } elif i == 9 { finish F; } else { i = [i + 1]; } } "z"; }\n',
-              'out int i = 0;\nparser { "a"; optional { optional { i = 1; } } "b"; }\n']
+              'out int i = 0;\nparser { "a"; optional { optional { i = 1; } } "b"; }\n',
+              # a handler reached only through the actions that follow a conditionally broken loop
+              'out str[3] s; out int i = 0;\nparser { try { loop { "a"; i = [i+1]; if i == 2 { break; } } s += [33]; s += [33]; s += [33]; "z"; } catch (outofspace) { "c"; } }\n',
+              'out int i = 0;\nparser { i = 0b; "a"; }\n', 'out int i = 0x;\nparser { "a"; }\n',
+              'out enum{A,B} e;\nmacro m(expr q){ e = q; }\nparser{ "a"; m([zzz + 1]); "b"; }\n',
+              'out int i = ' + '9' * 5000 + ';\nparser { "a"; }\n',
+              # an append after a construct that cannot fail: its out-of-space target is the generic fail state
+              'out int{size 1} i;\nout str[3] s;\nparser { try { wait "yd"; finish; } catch (nomatch) { " c"; } delete s; s += [(10)]; }\n',
+              'out str[2] s;\nparser { loop { wait "ab"; s += [65]; } }\n']
     for k, src in enumerate(always):
         for lvl in ("-O0", "-O1", "-O3"):
             out.append({"name": f"always-{k}{lvl}", "src": src, "args": [lvl]})
